@@ -1,5 +1,7 @@
 """C08 -- the concurrent tree walk visits every selected node exactly once and then stops.
-(M) FsLoop.tla: one action per atomic step of producers, the two bounded channels,
+(M) JobSync.tla: the quota Pool (Add reserves min(n, free), Done, Wait) and the
+    Lifecycle (strict errors kill, steps) -- every sequence of 5 calls replayed on the
+    real types.  FsLoop.tla: one action per atomic step of producers, the two bounded channels,
     polling consumers and the goroutine announcing completion; TLC checks
     AtMostOnce, NoLoss, MaxConcurrency, WaitAfterLastCallback, ErrorRecorded and
     (under fairness) termination for several tree shapes x 1-3 consumers x
@@ -43,6 +45,14 @@ def run(ctx):
     ctx.cov['states'] -= rp['distinct']; ctx.cov['transitions'] -= rp['generated']
     if 'NoLoss' not in rp['violated']:
         raise vlib.Infra('spec self-test failed: the prefix variant does not violate NoLoss')
+    # ---- the quota pool and the lifecycle the loop is built on (JobSync.tla): every call sequence, replayed
+    for strict in ('TRUE', 'FALSE'):
+        rj = ctx.tlc_must_pass('loop', 'JobSync', 'MC_JobSync_%s.cfg' % strict, workers=4, timeout=900, name='JobSync all call sequences <=5 (strict=%s)' % strict)
+        shards, tot, taken = vlib.shard_lines(ctx, rj['out'], 14, marker='\\"k\\":\\"jobsync\\"', every=4 if q else 1, offset=ctx.seed)
+        mj = vlib.run_sharded(ctx, lambda p: ['jobsync', '--in', p], shards)
+        ctx.cov['replay'].append(dict(what='JobSync call sequences strict=%s' % strict, model_cases=tot, executed=mj['executed'], failures=mj['failures_by_key']))
+        ctx.cov['evaluations'] += mj['executed']
+        vlib.report_case_failures(ctx, mj, 'Pool / Lifecycle call sequences')
     # ---- (R) the counterexample schedule on the real goroutines
     m = ctx.vh(['loopscript'])
     ctx.cov['replay'].append(dict(what='property-directed schedule on the real loop', executed=m['executed'], failures=m['failures_by_key']))
